@@ -108,3 +108,68 @@ theorem endow_src_refusals (cash vol old : K) (hold delta : Int) :
     all_goals simp [BTerm.eval, ITerm.eval, NTerm.eval, rhoEndow, Obs.eval, Obs.evalList] at h ⊢
 
 end Pams.Src
+
+/-! ### holdings: reading and updating -/
+namespace Pams.Src
+open Pams Pams.Py
+variable {K : Type} [LinearOrder K] [NumOpsC K]
+
+/-- the agent with markets 0 and 1 accessible, holding int atoms 20 and 21 -/
+def holdVols : Val := .dict [.int (.lit 0), .int (.lit 1)] [.int (.atom 20), .int (.atom 21)]
+
+def holdPaths (fn : String) (args : List Val) :=
+  obsPathsPG endowObs endowEnv FUEL ("Agent." ++ fn) (.ref 1 :: args) (endowSt holdVols)
+
+def rhoHold (h0 h1 delta : Int) (cash d : K) : Rho K :=
+  { i := fun k => if k = 20 then h0 else if k = 21 then h1 else delta
+    n := fun k => if k = 12 then cash else d
+    b := fun _ => false }
+
+theorem hdP_get : holdPaths "get_asset_volume" [.int (.lit 1)] = evalnf% (holdPaths "get_asset_volume" [.int (.lit 1)]) := by kernel_rfl
+theorem hdP_getNo : holdPaths "get_asset_volume" [.int (.lit 2)] = evalnf% (holdPaths "get_asset_volume" [.int (.lit 2)]) := by kernel_rfl
+theorem hdP_upd : holdPaths "update_asset_volume" [.int (.lit 1), .int (.atom 30)] = evalnf% (holdPaths "update_asset_volume" [.int (.lit 1), .int (.atom 30)]) := by kernel_rfl
+theorem hdP_updNo : holdPaths "update_asset_volume" [.int (.lit 2), .int (.atom 30)] = evalnf% (holdPaths "update_asset_volume" [.int (.lit 2), .int (.atom 30)]) := by kernel_rfl
+theorem hdP_cash : holdPaths "update_cash_amount" [.num (.atom 13)] = evalnf% (holdPaths "update_cash_amount" [.num (.atom 13)]) := by kernel_rfl
+
+/-- **holdings are read and changed per accessible market only**: `get_asset_volume` answers the position of an
+accessible market and refuses any other; `update_asset_volume` adds the delta to that market's position and
+touches nothing else; `update_cash_amount` adds the delta to the cash -/
+theorem endow_src_holdings (h0 h1 delta : Int) (cash d : K) :
+    resultG endowObs (rhoHold h0 h1 delta cash d) endowEnv FUEL "Agent.get_asset_volume" [.ref 1, .int (.lit 1)] (endowSt holdVols)
+      = .tuple [.int h1, .num cash, .tuple [.tuple [.int 0, .int 1], .tuple [.int h0, .int h1]], .tuple []] ∧
+    resultG endowObs (rhoHold h0 h1 delta cash d) endowEnv FUEL "Agent.get_asset_volume" [.ref 1, .int (.lit 2)] (endowSt holdVols)
+      = .err (.raise "ValueError") ∧
+    resultG endowObs (rhoHold h0 h1 delta cash d) endowEnv FUEL "Agent.update_asset_volume" [.ref 1, .int (.lit 1), .int (.atom 30)] (endowSt holdVols)
+      = .tuple [.none, .num cash, .tuple [.tuple [.int 0, .int 1], .tuple [.int h0, .int (h1 + delta)]], .tuple []] ∧
+    resultG endowObs (rhoHold h0 h1 delta cash d) endowEnv FUEL "Agent.update_asset_volume" [.ref 1, .int (.lit 2), .int (.atom 30)] (endowSt holdVols)
+      = .err (.raise "ValueError") ∧
+    resultG endowObs (rhoHold h0 h1 delta cash d) endowEnv FUEL "Agent.update_cash_amount" [.ref 1, .num (.atom 13)] (endowSt holdVols)
+      = .tuple [.none, .num (cash + d), .tuple [.tuple [.int 0, .int 1], .tuple [.int h0, .int h1]], .tuple []] := by
+  refine ⟨?_, ?_, ?_, ?_, ?_⟩
+  · apply resultG_eq_of_pathsP (by intro x; simp)
+    show ∀ p ∈ holdPaths "get_asset_volume" [.int (.lit 1)], _
+    py_paths hdP_get
+    all_goals intro h
+    all_goals simp [BTerm.eval, ITerm.eval, NTerm.eval, rhoHold, Obs.eval, Obs.evalList] at h ⊢
+  · apply resultG_eq_of_pathsP (by intro x; simp)
+    show ∀ p ∈ holdPaths "get_asset_volume" [.int (.lit 2)], _
+    py_paths hdP_getNo
+    all_goals intro h
+    all_goals simp [BTerm.eval, ITerm.eval, NTerm.eval, rhoHold, Obs.eval, Obs.evalList] at h ⊢
+  · apply resultG_eq_of_pathsP (by intro x; simp)
+    show ∀ p ∈ holdPaths "update_asset_volume" [.int (.lit 1), .int (.atom 30)], _
+    py_paths hdP_upd
+    all_goals intro h
+    all_goals simp [BTerm.eval, ITerm.eval, NTerm.eval, rhoHold, Obs.eval, Obs.evalList] at h ⊢
+  · apply resultG_eq_of_pathsP (by intro x; simp)
+    show ∀ p ∈ holdPaths "update_asset_volume" [.int (.lit 2), .int (.atom 30)], _
+    py_paths hdP_updNo
+    all_goals intro h
+    all_goals simp [BTerm.eval, ITerm.eval, NTerm.eval, rhoHold, Obs.eval, Obs.evalList] at h ⊢
+  · apply resultG_eq_of_pathsP (by intro x; simp)
+    show ∀ p ∈ holdPaths "update_cash_amount" [.num (.atom 13)], _
+    py_paths hdP_cash
+    all_goals intro h
+    all_goals simp [BTerm.eval, ITerm.eval, NTerm.eval, rhoHold, Obs.eval, Obs.evalList] at h ⊢
+
+end Pams.Src
